@@ -69,6 +69,52 @@ impl Kind {
     }
 }
 
+/// how a length (`slice.len()`, `self.len`, `control.slices.len()`) reaches the OS
+#[derive(Clone, Copy, PartialEq, Eq, PartialOrd, Ord, Debug)]
+enum LenKind {
+    /// `.try_into().unwrap_or(u32::MAX)`
+    Saturating,
+    /// a plain `as` cast (wraps when the target is narrower)
+    Cast,
+    /// `ctrl.msg.msg_iovlen = .. as _`: cast to the type of a libc struct field (size_t on Linux/glibc)
+    ToField,
+    /// passed / stored as `usize`
+    Full,
+}
+
+impl LenKind {
+    fn lean(self) -> &'static str {
+        match self {
+            LenKind::Saturating => ".saturating",
+            LenKind::Cast => ".cast",
+            LenKind::ToField => ".toField",
+            LenKind::Full => ".full",
+        }
+    }
+}
+
+const BYTE_LEN_RECV: [&str; 1] = ["slice"];
+const COUNT_LEN_RECV: [&str; 3] = ["control.slices", "ctrl.slices", "self.base.slices"];
+
+/// Some(true) = a byte length, Some(false) = an iovec count
+fn len_source(e: &syn::Expr) -> Option<bool> {
+    match e {
+        syn::Expr::Paren(p) => len_source(&p.expr),
+        syn::Expr::MethodCall(m) if m.method == "len" && m.args.is_empty() => {
+            let r = nospace(&m.receiver);
+            if BYTE_LEN_RECV.contains(&r.as_str()) {
+                Some(true)
+            } else if COUNT_LEN_RECV.contains(&r.as_str()) {
+                Some(false)
+            } else {
+                None
+            }
+        }
+        syn::Expr::Field(_) if nospace(e) == "self.len" => Some(true),
+        _ => None,
+    }
+}
+
 #[derive(Clone, Copy, PartialEq, Eq, Debug)]
 enum Dir {
     Read,
@@ -333,6 +379,8 @@ struct Scan<'a> {
     ctrl_recv: Vec<String>,
     main: Vec<(Kind, String)>,
     ctrl: Vec<(Kind, String)>,
+    byte_lens: Vec<(LenKind, String)>,
+    count_lens: Vec<(LenKind, String)>,
     visited: BTreeSet<(String, String)>,
     /// the type whose method body is being scanned (`self.<m>()` resolves against it)
     cur_ty: String,
@@ -429,6 +477,56 @@ impl<'a, 'ast> Visit<'ast> for Scan<'a> {
         syn::visit::visit_expr_method_call(self, m);
     }
 
+    fn visit_expr(&mut self, e: &'ast syn::Expr) {
+        // length expressions: classify at the outermost node and do not descend
+        let rec = |this: &mut Self, is_byte: bool, k: LenKind| {
+            let site = format!("{}:{}", this.site, nospace(e));
+            if is_byte {
+                this.byte_lens.push((k, site));
+            } else {
+                this.count_lens.push((k, site));
+            }
+        };
+        match e {
+            syn::Expr::MethodCall(u) if u.method == "unwrap_or" && u.args.len() == 1 => {
+                if let syn::Expr::MethodCall(t) = &*u.receiver {
+                    if t.method == "try_into" && t.args.is_empty() {
+                        if let Some(b) = len_source(&t.receiver) {
+                            if nospace(&u.args[0]) != "u32::MAX" {
+                                self.fail(format!("{}: length saturates to `{}` (expected u32::MAX) in {}", self.op, nospace(&u.args[0]), self.site));
+                            }
+                            rec(self, b, LenKind::Saturating);
+                            return;
+                        }
+                    }
+                }
+            }
+            syn::Expr::Cast(c) => {
+                if let Some(b) = len_source(&c.expr) {
+                    rec(self, b, LenKind::Cast);
+                    return;
+                }
+            }
+            syn::Expr::Assign(a) => {
+                if let syn::Expr::Cast(c) = &*a.right {
+                    if let Some(b) = len_source(&c.expr) {
+                        if nospace(&a.left).ends_with(".msg_iovlen") && !b {
+                            rec(self, b, LenKind::ToField);
+                            return;
+                        }
+                    }
+                }
+            }
+            _ => {
+                if let Some(b) = len_source(e) {
+                    rec(self, b, LenKind::Full);
+                    return;
+                }
+            }
+        }
+        syn::visit::visit_expr(self, e);
+    }
+
     fn visit_expr_call(&mut self, c: &'ast syn::ExprCall) {
         if let syn::Expr::Path(p) = &*c.func {
             if let Some(seg) = p.path.segments.last() {
@@ -478,6 +576,8 @@ struct Row {
     ctrl: Option<BufParam>,
     main_kinds: Vec<(Kind, String)>,
     ctrl_kinds: Vec<(Kind, String)>,
+    byte_lens: Vec<(LenKind, String)>,
+    count_lens: Vec<(LenKind, String)>,
 }
 
 fn dedup_kinds(v: &[(Kind, String)]) -> Vec<Kind> {
@@ -526,6 +626,8 @@ fn scan_impl(im: &syn::ItemImpl, driver: &'static str, file: &'static str, helpe
         ctrl_recv: if ctrl.is_some() { vec!["self.control".into()] } else { vec![] },
         main: vec![],
         ctrl: vec![],
+        byte_lens: vec![],
+        count_lens: vec![],
         visited: BTreeSet::new(),
         cur_ty: op.clone(),
         site: String::new(),
@@ -547,7 +649,7 @@ fn scan_impl(im: &syn::ItemImpl, driver: &'static str, file: &'static str, helpe
     if main.is_none() && !sc.main.is_empty() || ctrl.is_none() && !sc.ctrl.is_empty() {
         return Err(format!("{what}: range-kind calls without a buffer parameter"));
     }
-    Ok(Row { op, driver, file, main, ctrl, main_kinds: sc.main, ctrl_kinds: sc.ctrl })
+    Ok(Row { op, driver, file, main, ctrl, main_kinds: sc.main, ctrl_kinds: sc.ctrl, byte_lens: sc.byte_lens, count_lens: sc.count_lens })
 }
 
 // ---------------------------------------------------------------------------------------------
@@ -901,6 +1003,11 @@ fn lean_buf(b: &Option<BufParam>) -> String {
     }
 }
 
+fn lean_lens(v: &[(LenKind, String)]) -> String {
+    let s: BTreeSet<LenKind> = v.iter().map(|x| x.0).collect();
+    format!("[{}]", s.into_iter().map(|k| k.lean()).collect::<Vec<_>>().join(", "))
+}
+
 fn lean_kinds(k: &[Kind]) -> String {
     format!("[{}]", k.iter().map(|k| k.lean()).collect::<Vec<_>>().join(", "))
 }
@@ -964,6 +1071,7 @@ pub fn generate(repo: &Path) -> Res<String> {
     s.push_str("inductive Dir where\n  | read | write\n  deriving DecidableEq, Repr\n\n");
     s.push_str("/-- the range of the buffer handed to the OS: `init` = `as_init`/`sys_slice`/`sys_slices` (`0..len`),\n    `writable` = `as_uninit`/`sys_slice_mut`/`sys_slices_mut` (`0..capacity`) -/\n");
     s.push_str("inductive Kind where\n  | init | writable\n  deriving DecidableEq, Repr\n\n");
+    s.push_str("/-- derivation of a length passed to the OS: `saturating` = `.try_into().unwrap_or(u32::MAX)`, `cast` = a plain\n    `as` cast, `toField` = `msg_iovlen = .. as _` (size_t on Linux/glibc), `full` = handed over as `usize` -/\ninductive LenKind where\n  | saturating | cast | toField | full\n  deriving DecidableEq, Repr\n\n");
     s.push_str("structure BufParam where\n  dir : Dir\n  vectored : Bool\n  deriving DecidableEq, Repr\n\n");
     let mut op_names: Vec<String> = vec![];
     for r in &rows {
@@ -976,21 +1084,26 @@ pub fn generate(repo: &Path) -> Res<String> {
         writeln!(s, "  | {n}").unwrap();
     }
     s.push_str("  deriving DecidableEq, Repr\n\n");
-    s.push_str("structure Row where\n  op : Op\n  driver : Driver\n  /-- the `buffer: T` parameter -/\n  main : Option BufParam\n  /-- the `control: C` parameter (ancillary data) -/\n  ctrl : Option BufParam\n  /-- distinct range kinds of `self.buffer` reached from the impl's method bodies -/\n  mainKinds : List Kind\n  ctrlKinds : List Kind\n  deriving DecidableEq, Repr\n\n");
+    s.push_str("structure Row where\n  op : Op\n  driver : Driver\n  /-- the `buffer: T` parameter -/\n  main : Option BufParam\n  /-- the `control: C` parameter (ancillary data) -/\n  ctrl : Option BufParam\n  /-- distinct range kinds of `self.buffer` reached from the impl's method bodies -/\n  mainKinds : List Kind\n  ctrlKinds : List Kind\n  /-- how the byte lengths (`slice.len()`, `self.len`) the impl hands to the OS are derived -/\n  byteLens : List LenKind\n  /-- same for iovec counts (`control.slices.len()`) -/\n  countLens : List LenKind\n  deriving DecidableEq, Repr\n\n");
     s.push_str("def rows : List Row := [\n");
     for (i, r) in rows.iter().enumerate() {
         for (k, site) in r.main_kinds.iter().chain(&r.ctrl_kinds) {
             writeln!(s, "  -- {} {:?} at {}", r.op, k, site).unwrap();
         }
+        for (k, site) in r.byte_lens.iter().chain(&r.count_lens) {
+            writeln!(s, "  -- {} length {:?} at {}", r.op, k, site).unwrap();
+        }
         writeln!(
             s,
-            "  ⟨.{}, .{}, {}, {}, {}, {}⟩{}  -- {}",
+            "  ⟨.{}, .{}, {}, {}, {}, {}, {}, {}⟩{}  -- {}",
             r.op,
             r.driver,
             lean_buf(&r.main),
             lean_buf(&r.ctrl),
             lean_kinds(&dedup_kinds(&r.main_kinds)),
             lean_kinds(&dedup_kinds(&r.ctrl_kinds)),
+            lean_lens(&r.byte_lens),
+            lean_lens(&r.count_lens),
             if i + 1 < rows.len() { "," } else { "" },
             r.file
         )
